@@ -57,11 +57,11 @@ theorem c12_exact_length (c0 n : Nat) (hc : c0 < 2 ^ 63) (s : State) (h : ReachN
   cases hop : g.op with
   | alloc sz =>
     simp only [resultOf, hop, requested]
-    refine ⟨?_, rfl, Nat.le_refl _, Nat.le_refl _⟩
+    refine ⟨?_, trivial, Nat.le_refl _, Nat.le_refl _⟩
     rw [hlen, hop]; simp [Op.inner]
   | copy d =>
     simp only [resultOf, hop, requested]
-    refine ⟨?_, rfl, Nat.le_refl _, Nat.le_refl _⟩
+    refine ⟨?_, trivial, Nat.le_refl _, Nat.le_refl _⟩
     rw [hlen, hop]
     have := hcopy d hop
     simp only [Op.inner, BitVec.toNat_ofNat]
